@@ -354,7 +354,11 @@ func (e *aEnv) rotate() {
 func (e *aEnv) quiesce() {
 	aof := e.inst.slock.aof
 	vAofIdle(aof)
-	vWaitRewrite(aof)
+	if e.c.RewriteSize > 0 {
+		vWaitRewriteRotations()
+	} else {
+		vWaitRewrite(aof)
+	}
 	vAofIdle(aof)
 	aof.FlushWithLocked()
 }
